@@ -1,6 +1,7 @@
 // stepper is the step process of C10's cli stage: it dumps its environment
 // (NUL-separated, as `env -0` does) to <dir>/<name>.env, counts its own
-// invocations in <dir>/<name>.cnt and fails its first k invocations. A fifth
+// invocations in <dir>/<name>.cnt and fails its first k invocations (unless
+// <dir>/allok exists). A fifth
 // argument makes it leave <dir>/<name>.<arg> behind as well.
 //
 // usage: stepper <dir> <name> <fail-first-k> [marker]
@@ -35,6 +36,10 @@ func main() {
 	}
 	if err := os.WriteFile(cnt, []byte(strconv.Itoa(attempt)), 0o644); err != nil {
 		os.Exit(3)
+	}
+	// <dir>/allok: from now on every step succeeds (set before a retry)
+	if _, err := os.Stat(filepath.Join(dir, "allok")); err == nil {
+		return
 	}
 	if attempt <= k {
 		os.Exit(1)
